@@ -124,6 +124,26 @@ CHECKS = {
          'runs on the real library during witness replay.',
     note='Trusted base: lxml/libxml2 honouring resolve_entities=False, load_dtd=False, no_network=True, huge_tree=False. The lxml '
          'entry points are replaced by a recording stub in the symbolic part.'),
+ 'C01': dict(
+    cat='model_checking', ref='DESIGN.md section 4 (C01)',
+    text='Partial. Symbolic part: (a) every leaf codec through the handler tables of each concrete protocol instance '
+         '(XmlDocument, Soap11, Soap12) and base_from_element/unicode_from_element on an element stub; (b) routing: an element '
+         'tree shaped like the message (nested object, wrapped and unwrapped arrays, XML attribute, sub_name alias, absent '
+         'optional member) with symbolic leaf texts goes through the real deserialize/from_element/complex_from_element/'
+         'array_from_element; z3 proves every field equals its sent value in order. Every path witness additionally travels '
+         'through the complete real pipeline (lxml parser, SOAP envelope, user function, serializer) and the response is decoded '
+         'by a reference decoder.',
+    note='Element construction (to_parent), envelope (de)composition, the lxml validator, the Spyne client loopback and third-party '
+         'clients are C/lxml code: they are exercised only concretely, once per path witness (that part is witness-driven testing, '
+         'stated as such). One universe of classes; validator None and soft.'),
+ 'C06': dict(
+    cat='model_checking', ref='DESIGN.md section 4 (C06)',
+    text='Partial. The real schema emitters run on 20 constrained leaf types and 11 occurrence ranges; advertised base type, facets, '
+         'minOccurs/maxOccurs are read back from the generated nodes. For a symbolic leaf text / occurrence count z3 decides whether '
+         'a reference model of XSD semantics and spyne soft validation can disagree, and whether a value admitted by the type can '
+         'be written as text the schema rejects. Witnesses and counterexamples are judged by the real compiled lxml XMLSchema.',
+    note='"The schema compiles" and multi-namespace import closure are concrete facts observed while building the harness universe, '
+         'not solver results. ByteArray emission uses a fixed list of byte strings (binascii is C).'),
 }
 
 NOT_APPLICABLE = {
